@@ -474,7 +474,8 @@ def call_method(m: Any, recv: V, name: str, args: list[V], kwargs: dict[str, V],
                     if flat is not None:
                         items = [sv.sort.elem.wrap(t) for t in flat]
             if items is None or not all(isinstance(i, VStr) for i in items):
-                raise EngineError("str.join over a symbolic-length sequence (needs an area hook)")
+                # symbolic length: an unconstrained string (sound over-approximation; used for messages)
+                return VStr(z3.String(fresh_name("joined")))
             out = []
             for k, it in enumerate(items):
                 if k:
